@@ -1272,6 +1272,13 @@ func (fc *FuncCtx) declareSpec(sf *SpecFunc) string {
 		return name
 	}
 	fc.u.declared[name] = true
+	emitted := false
+	defer func() {
+		if !emitted {
+			// the definition could not be expressed in this unit's model: it must not look defined
+			delete(fc.u.declared, name)
+		}
+	}()
 	ev := &Env{fc: fc, pkg: sf.Pkg, vars: map[string]Value{}}
 	ev.st = &State{pc: "true", locals: map[localKey]Value{}, heap: map[string]string{}, ghost: map[string]Value{}}
 	ev.old = ev.st
@@ -1290,6 +1297,7 @@ func (fc *FuncCtx) declareSpec(sf *SpecFunc) string {
 	if sf.Uninterp {
 		fc.u.emit("(declare-fun " + name + " (" + strings.Join(psorts, " ") + ") " + rs + ")")
 		fc.u.Assumptions["uninterpreted spec function "+sf.Name] = true
+		emitted = true
 		return name
 	}
 	if sf.Rec {
@@ -1323,6 +1331,7 @@ func (fc *FuncCtx) declareSpec(sf *SpecFunc) string {
 		}
 		app := "(" + name + " " + strings.Join(pn, " ") + ")"
 		fc.u.emit("(assert (forall (" + strings.Join(params, " ") + ") (! (= " + app + " " + bt + ") :pattern (" + app + "))))")
+		emitted = true
 		return name
 	}
 	body := ev.eval(sf.Body)
@@ -1337,6 +1346,7 @@ func (fc *FuncCtx) declareSpec(sf *SpecFunc) string {
 		bt = bs.T
 	}
 	fc.u.emit("(define-fun " + name + " (" + strings.Join(params, " ") + ") " + rs + " " + bt + ")")
+	emitted = true
 	return name
 }
 
